@@ -58,6 +58,10 @@ class Unknown(object):
         return 'Unknown(%s)' % self.what
 
 
+_PENDING = object()
+_MODVALS = {}
+
+
 class ClosureEnv(dict):
     """local names of a nested function over the defining environment"""
 
@@ -145,7 +149,7 @@ class Evaluator(object):
         self.class_bases = class_bases or {}
         self._callstack = []
         # call module level functions of `module` by evaluating them
-        self.inline_module_functions = False
+        self.inline_module_functions = True
         # id(FunctionDef) -> (module, class name): evaluation context of
         # methods that live in another module than `module`
         self.context_of = {}
@@ -163,10 +167,15 @@ class Evaluator(object):
         a = fdef.args
         params = [x.arg for x in a.args]
         if self_obj is not None:
-            if not params or params[0] != 'self':
+            static = any(isinstance(d, ast.Name) and d.id == 'staticmethod'
+                         for d in fdef.decorator_list)
+            if static:
+                pass
+            elif not params or params[0] != 'self':
                 raise AnalysisError('%s: expected a method' % fdef.name)
-            env['self'] = self_obj
-            params = params[1:]
+            else:
+                env['self'] = self_obj
+                params = params[1:]
         defaults = [None] * (len(params) - len(a.defaults)) + list(a.defaults)
         if len(args) > len(params) and not a.vararg:
             raise AnalysisError('%s: too many arguments' % fdef.name)
@@ -398,7 +407,32 @@ class Evaluator(object):
         try:
             v = Folder(self.module, self.clsname).fold(e)
         except Unfoldable:
+            v = self.module_value(e)
+        return v
+
+    def module_value(self, e):
+        """value of a module level name whose initialiser the constant
+        folder cannot fold (it calls functions of the module): the
+        initialiser is evaluated like any other expression"""
+        cache = _MODVALS.setdefault(id(self.module), {})
+        key = (self.module.name, e.id)
+        if key in cache:
+            if cache[key] is _PENDING:
+                self.err(e, 'recursive module level definition')
+            return cache[key]
+        init = getattr(self.module, 'assigns', {}).get(e.id)
+        if init is None:
             self.err(e, 'unknown name')
+        cache[key] = _PENDING
+        saved = self.clsname
+        self.clsname = None
+        try:
+            v = self.expr(init, {})
+        finally:
+            self.clsname = saved
+            if cache.get(key) is _PENDING:
+                del cache[key]
+        cache[key] = v
         return v
 
     def x_Tuple(self, e, env):
@@ -450,7 +484,8 @@ class Evaluator(object):
                     pass
             self.err(e, 'abstract object lacks attribute')
         if isinstance(base, RegexConst) and e.attr in (
-                'match', 'sub', 'search', 'split', 'findall', 'fullmatch'):
+                'match', 'sub', 'search', 'split', 'findall', 'fullmatch',
+                'finditer'):
             return ('regex', base, e.attr)
         if isinstance(base, str) and e.attr in (
                 'startswith', 'endswith', 'strip', 'join', 'format', 'lower',
@@ -459,9 +494,17 @@ class Evaluator(object):
             return ('pyfunc', getattr(base, e.attr))
         if isinstance(base, bytes) and e.attr in ('decode',):
             return ('pyfunc', getattr(base, e.attr))
-        if isinstance(base, (list, set, dict)) and e.attr in (
+        if isinstance(base, (list, set, dict, frozenset, tuple)) and \
+                e.attr in (
                 'append', 'pop', 'add', 'get', 'extend', 'update', 'keys',
-                'values', 'items', 'copy', 'setdefault', 'insert'):
+                'values', 'items', 'copy', 'setdefault', 'insert', 'union',
+                'intersection', 'difference', 'issubset', 'issuperset',
+                'isdisjoint', 'discard', 'remove', 'index', 'count',
+                'clear', 'reverse', 'sort', 'symmetric_difference') and \
+                hasattr(base, e.attr):
+            return ('pyfunc', getattr(base, e.attr))
+        if type(base).__name__ in ('Match', 'SRE_Match') and e.attr in (
+                'group', 'groups', 'start', 'end', 'span', 'groupdict'):
             return ('pyfunc', getattr(base, e.attr))
         if isinstance(base, Unknown):
             return Unknown('%s.%s' % (base.what, e.attr))
@@ -476,7 +519,8 @@ class Evaluator(object):
         if isinstance(e.slice, ast.Slice):
             lo = self.expr(e.slice.lower, env) if e.slice.lower else None
             hi = self.expr(e.slice.upper, env) if e.slice.upper else None
-            return base[lo:hi]
+            st = self.expr(e.slice.step, env) if e.slice.step else None
+            return base[lo:hi:st]
         idx = self.expr(e.slice, env)
         try:
             return base[idx]
@@ -489,6 +533,10 @@ class Evaluator(object):
             return not self.truth(v, e)
         if isinstance(e.op, ast.USub):
             return -v
+        if isinstance(e.op, ast.UAdd):
+            return +v
+        if isinstance(e.op, ast.Invert):
+            return ~v
         self.err(e, 'unsupported unary operator')
 
     def x_BoolOp(self, e, env):
@@ -559,6 +607,18 @@ class Evaluator(object):
             return a | b
         if isinstance(op, ast.Mod):
             return a % b
+        if isinstance(op, ast.LShift):
+            if not isinstance(b, int) or b > 4096:
+                self.err(node, 'shift amount')
+            return a << b
+        if isinstance(op, ast.RShift):
+            return a >> b
+        if isinstance(op, ast.BitXor):
+            return a ^ b
+        if isinstance(op, ast.FloorDiv):
+            return a // b
+        if isinstance(op, ast.Div):
+            return a / b
         self.err(node, 'unsupported binary operator')
 
     def x_BinOp(self, e, env):
@@ -738,7 +798,10 @@ class Evaluator(object):
             rx = re.compile(f[1].pattern, f[1].flags)
             if any(isinstance(a, Unknown) for a in args):
                 return Unknown('regex result')
-            return getattr(rx, f[2])(*args)
+            res = getattr(rx, f[2])(*args)
+            if f[2] == 'finditer':
+                res = list(res)
+            return res
         if isinstance(f, Sym):
             if f.name in self.functions:
                 return self.functions[f.name](*args, **kwargs)
